@@ -102,7 +102,7 @@ def body(ctx):
         ctx.log("apalache AllocInd %s: ok=%s %.1fs" % (init, r["ok"], r["wall"]))
         if not r["ok"]:
             raise vf.InfraError("Apalache: HeapInv is not inductive (%s)\n%s" % (init, r["out"]))
-    exe = vf.build("none", "none", extra_flags=["-march=native"], extra_srcs=["alloc_tu.cpp"])
+    exe = vf.build("none", "none", extra_flags=["-march=native"], extra_srcs=["alloc_tu.cpp"], link_flags=["-Wl,--wrap=posix_memalign", "-Wl,--wrap=free"])
     rng = ctx.rng
     nh, nops = ctx.q(48, 8000), ctx.q(50, 50)
     traces = []
@@ -132,7 +132,13 @@ def body(ctx):
                 evs.append(e)
             nid += len(pl)
             allplans += pl
-            evs.append(dict(id=nid, k="al", op="quiesce", t="-", kind="quiesce", archs=["allocator"]))
+            # system blocks (posix_memalign) still outstanding when the client has released everything: the last logged count of this process
+            sysn = 0
+            for e in reversed(evs):
+                if e.get("kind") in ("allocate", "deallocate") and e["id"] > nid - len(pl):
+                    sysn = e["r"][27] if e["kind"] == "allocate" else e["r"][9]
+                    break
+            evs.append(dict(id=nid, k="al", op="quiesce", t="-", kind="quiesce", sys=sysn, archs=["allocator"]))
             os.remove(pth)
             os.remove(pth + ".out")
         traces.append(evs)
